@@ -241,7 +241,7 @@ func doBatch(ctx *hx.Ctx, bc *BatchCase) {
 		}
 	}
 	ctx.Cov.Case(bc.canonical(), nontrivial, bc)
-	if class != "" {
+	if class != "" && !reported(ctx, class) {
 		ctx.Violation(class, summary, shrinkBatch(ctx, bc, class), found)
 	}
 }
